@@ -107,6 +107,16 @@ Section Run.
                        end
                      else if ustr_eqb op (U"replace") then
                        match args with [v] => go r v file outs | _ => Unmodelled end
+                     else if ustr_eqb op (U"trywrite") then
+                       (* an attempt to store another value that may fail to serialize: a failure leaves the file as it was *)
+                       match args with
+                       | [v] => match canonserialize v with
+                                | Ok f => go r mem (Some f) outs
+                                | Err _ => go r mem file outs
+                                | Unmodelled => Unmodelled
+                                end
+                       | _ => Unmodelled
+                       end
                      else if ustr_eqb op (U"prefill") then
                        match args with [VBytes f] => go r mem (Some f) outs | _ => Unmodelled end
                      else if ustr_eqb op (U"sign") then
